@@ -236,7 +236,7 @@ def _open_source(fs, kind, text, name):
 
 def _read(rowio, source, widths, setting):
     fields = [("f%d" % index, width) for index, width in enumerate(widths)]
-    return lib.call(lambda: [list(row) for row in rowio.fixed_rows(source, "utf-8", fields, SETTINGS[setting])])
+    return lib.call(lambda: lib.collect_rows(rowio.fixed_rows(source, "utf-8", fields, SETTINGS[setting])))
 
 
 def judge(text, widths, setting, status, value, features):
